@@ -37,7 +37,14 @@ theorem C20_publish_never_waits_on_subscriber_guard (s : Sys) (t : Nat) (chans' 
   step_enabled_indep_of_chans s t chans'
 
 /-- (b) The only thing a task ever waits for is the mutex: a task that cannot move has either finished
-its program or is outside a critical section while somebody holds the mutex. -/
+its program or is outside a critical section while somebody holds the mutex.
+
+What this does and does not say about a WAITING publisher: its wait is never on a subscriber — no
+subscriber-side state (full / closed / slow channel) appears in the guard, (a) — but it IS a wait on
+the current holder's section and, in the real runtime, on task scheduling and on tokio's FIFO hand-off
+of the mutex (the model grants the lock to ANY waiter, an over-approximation).  How long that is, is
+bounded by (c) in the holder's OWN turns only; wall-clock time of those turns is scheduling, outside
+the model. -/
 theorem C20_publish_never_waits_on_subscriber_only_mutex (s : Sys) (t : Nat) (h : step s t = none) :
     ((s.tasks t).pc = .idle ∧ (s.tasks t).prog = []) ∨
     (s.lock.isSome = true ∧ (s.tasks t).pc.holds = false) := by
@@ -48,7 +55,15 @@ theorem C20_publish_never_waits_on_subscriber_only_mutex (s : Sys) (t : Nat) (h 
 /-- (c) The holder of the mutex can always move, its critical section has at most `|entries| + 1`
 steps (`publish`'s loop: one per entry, plus the release; every other section: at most 2), and no
 other task — in particular no subscriber — can lengthen it: in ANY schedule that gives the holder
-`csRemaining` turns, the mutex has been released after at most that many of the holder's own turns. -/
+`csRemaining` turns, the mutex has been released after at most that many of the holder's own turns.
+
+OBSERVATION (not a violation of the property sentence): the bound is LINEAR IN THE TABLE SIZE
+`|entries|`, and the table size is controlled by control clients — nothing in `src/subscriptions.rs` /
+`src/control_socket.rs` caps the number of subscriptions per connection or in total, and the real loop
+builds and serialises the JSON envelope (`json!` + `serde_json::to_string`, including a clone of the
+event payload) once per matching entry BEFORE `try_send`.  So "never waits on a subscriber, however
+slow, full or disconnected" holds, while the length of one `publish` — hence of the housekeeping pass
+that publishes statistics — grows with the number of live subscriptions a client chose to create. -/
 theorem C20_publish_never_waits_on_subscriber {s : Sys} (hr : Reachable s) {t : Nat}
     (hlock : s.lock = some t) :
     (∃ s', step s t = some s') ∧
